@@ -4,6 +4,11 @@ import Csverif.Driver.Runnable
 import Csverif.Driver.Monitor
 import Csverif.Driver.Sched
 import Csverif.Driver.HCache
+import Csverif.Driver.State
+import Csverif.Driver.MockFS
+import Csverif.Driver.MonC10
+import Csverif.Driver.MonC15
+import Csverif.Driver.MonC05
 /- Driver: `driver <layer>` reads one operation per line on stdin and prints one canonical
    line per operation.  It executes the very definitions the theorems are about. -/
 open CS
@@ -35,5 +40,14 @@ def main (args : List String) : IO UInt32 := do
   | ["monitor"] => loopStateless stdin stdout Driver.Monitor.step; stdout.flush; return 0
   | ["sched"] => loopState stdin stdout ({} : Driver.Sched.DSt) Driver.Sched.step; stdout.flush; return 0
   | ["hcache"] => loopState stdin stdout Driver.HCache.St.init Driver.HCache.step; stdout.flush; return 0
+  | ["state"] => loopState stdin stdout ({} : Driver.State.DSt) Driver.State.step; stdout.flush; return 0
+  | ["mockfs"] => loopState stdin stdout Driver.MockFS.dInit Driver.MockFS.step; stdout.flush; return 0
+  | ["tree"] => loopState stdin stdout Driver.MockFS.tInit Driver.MockFS.stepTree; stdout.flush; return 0
+  | ["fshash"] => loopState stdin stdout (FsHash.CacheEnt.fresh : Driver.MockFS.HSt) Driver.MockFS.stepHash; stdout.flush; return 0
+  | ["connect"] => loopState stdin stdout (Conn.init : Driver.MockFS.CSt) Driver.MockFS.stepConn; stdout.flush; return 0
+  | ["c10"] => loopStateless stdin stdout Driver.MonC10.step; stdout.flush; return 0
+  | ["lockmon"] => loopStateless stdin stdout Driver.MonC15.step; stdout.flush; return 0
+  | ["resolver"] => loopStateless stdin stdout Driver.MonC05.stepTie; stdout.flush; return 0
+  | ["monc05"] => loopStateless stdin stdout Driver.MonC05.stepMon; stdout.flush; return 0
   | ["reach"] => IO.println (toString Runnable.reachableCodes); return 0
   | _ => IO.eprintln "usage: driver <layer>"; return 2
